@@ -56,6 +56,8 @@ def err_adts(e):
 
 
 def check(ctx):
+    from .common import shadowing_audit
+    ctx.floor('R06.1', shadowing_audit(ctx, 'R06.1', ('ec_core::operator::selector::',)), 4, 'Selector impls of workspace types (shadowing audit)')
     from .ctors import check_table
     check_table(ctx, "C06", "R06.4")
     F = ctx.F
